@@ -98,7 +98,9 @@ func (e *Engine) VerifyFunction(fn *ssa.Function) (rep *FuncReport) {
 				rep.Error = ee.msg
 				return
 			}
-			panic(p)
+			// an internal error of the generator: the function's obligations cannot be
+			// produced, which is reported like any other lowering failure (fail closed)
+			rep.Error = fmt.Sprintf("internal error of the generator: %v", p)
 		}
 	}()
 	ct := e.Contracts[fn.String()]
@@ -260,7 +262,9 @@ func (e *Engine) VerifyLemma(ct *Contract) (rep *FuncReport) {
 				rep.Error = ee.msg
 				return
 			}
-			panic(p)
+			// an internal error of the generator: the function's obligations cannot be
+			// produced, which is reported like any other lowering failure (fail closed)
+			rep.Error = fmt.Sprintf("internal error of the generator: %v", p)
 		}
 	}()
 	ct.Used = true
